@@ -781,7 +781,16 @@ def _vectorize_func(func):
 
     # What should work once that Jax backend is fully supported
     signature = inspect.signature(func)
-    func_vec = numpy.vectorize(func)
+
+    # Take the output type from the return annotation. Without `otypes`,
+    # numpy.vectorize infers the dtype of the whole column from the value returned for
+    # the first row, which truncates floats to integers if a float-valued function
+    # happens to return an integer literal there.
+    return_type = getattr(func, "__annotations__", {}).get("return")
+    if return_type in (float, int, bool):
+        func_vec = numpy.vectorize(func, otypes=[return_type])
+    else:
+        func_vec = numpy.vectorize(func)
 
     @functools.wraps(func)
     def wrapper_vectorize_func(*args, **kwargs):
